@@ -124,7 +124,7 @@ def gen_case(rng):
         a = gen_operand(rng, fam=fam, aware=aware)
         b = gen_operand(rng, fam=fam if same_fam else None, base=a.get("start", 0) if rng.random() < 0.7 else None,
                         aware=aware if rng.random() < 0.9 else not aware)
-        if opn in ("add", "sub") and a["k"] == "h" and b["k"] == "h" and len(a["vs"]) >= 2 and rng.random() < 0.2:
+        if opn in ("add", "sub", "mul", "div") and a["k"] == "h" and b["k"] == "h" and len(a["vs"]) >= 2 and rng.random() < 0.2:
             # same start and same number of hours, but one of the two skips an hour
             b["start"] = a["start"]
             b["vs"] = [rng.choice([0.0, round(rng.uniform(-20, 300), 3)]) for _ in a["vs"]]
